@@ -8,7 +8,8 @@ the same outcome may still differ in *which* operation raises first when several
 the same class, or in whether a call that the source short-circuits away is performed.  The
 trace makes that observable: an event (`Ev`) per name lookup, attribute access, subscription,
 comparison, membership test, `+`/`-`, call, start of an iteration, `range(…)` and
-formatting of an f-string field — each with its operand **values** — in evaluation order:
+formatting of an f-string field — each with its operand **values** and the exception it raised,
+if any (`Ev.raised`, computed by the value-level operation of `Expr/Eval.lean`) — in evaluation order:
 operands left to right, the callee before the arguments, `and` / `or` / implication stop at
 the deciding operand, `any` / `all` evaluate the iterable once in the enclosing scope and
 stop at the deciding element, everything stops at the first exception.  Truth tests, `not`,
@@ -20,12 +21,14 @@ they need no semantics of their own.
 namespace AasVerif.Expr
 
 /-- An operation of the evaluation that can raise, with its operands. -/
-inductive Ev where
+inductive Op where
   /-- a name lookup and what it gives in the scope of that moment (loop variables!) -/
   | load (x : Text) (o : Out)
   /-- the callee of a function call -/
   | loadFn (f : Text)
   | getattr (v : Val) (n : Text)
+  /-- the lookup of a method of the receiver -/
+  | getmeth (v : Val) (n : Text)
   | index (c i : Val)
   | cmp (op : Cmp) (l r : Val)
   | isIn (m c : Val)
@@ -36,11 +39,68 @@ inductive Ev where
   | range (a b : Val)
   | fmt (v : Val)
 
+/-- An operation performed and the exception it raised (`none`: it succeeded). -/
+structure Ev where
+  op : Op
+  raised : Option Out
+
+/-- the exception of an outcome -/
+def errOf : Out → Option Out
+  | .val _ => none
+  | e => some e
+
 /-- what the name denotes here (`NameError` otherwise) -/
 def loadOut (ρ : Env) (x : Text) : Out :=
   match lookup x ρ.vars with
   | some v => .val v
   | none => .otherError
+
+/-- `v.n` for a property / enumeration literal -/
+def memberOut (v : Val) (n : Text) : Out :=
+  match v with
+  | .none => .noneDeref
+  | .inst _ _ fields =>
+    match lookup n fields with
+    | some x => .val x
+    | none => .otherError
+  | .enumCls en lits => if lits.contains n then .val (.enumLit en n) else .otherError
+  | _ => .otherError
+
+/-- calling the name `f` with evaluated arguments -/
+def callOut (ρ : Env) (f : Text) (vs : List Val) : Out :=
+  match lookup f ρ.vars with
+  | some _ => .typeError
+  | none =>
+    match ρ.funs f with
+    | some fn => fn vs
+    | none =>
+      if f = [108, 101, 110] then
+        match vs with
+        | [v] => lenVal v
+        | _ => .typeError
+      else .otherError
+
+def evLoad (ρ : Env) (x : Text) : Ev := ⟨.load x (loadOut ρ x), errOf (loadOut ρ x)⟩
+def evGetattr (v : Val) (n : Text) : Ev := ⟨.getattr v n, errOf (memberOut v n)⟩
+def evIndex (c i : Val) : Ev := ⟨.index c i, errOf (indexVals c i)⟩
+def evCmp (fo : FloatOps) (op : Cmp) (l r : Val) : Ev := ⟨.cmp op l r, errOf (cmpVals fo op l r)⟩
+def evIsIn (fo : FloatOps) (m c : Val) : Ev := ⟨.isIn m c, errOf (isInVals fo m c)⟩
+def evArith (fo : FloatOps) (add : Bool) (l r : Val) : Ev := ⟨.arith add l r, errOf (arithVals fo add l r)⟩
+def evCall (ρ : Env) (f : Text) (vs : List Val) : Ev := ⟨.call f vs, errOf (callOut ρ f vs)⟩
+def evCallMethod (ρ : Env) (recv : Val) (m : Text) (vs : List Val) : Ev :=
+  ⟨.callMethod recv m vs, errOf (match ρ.meths recv m with
+    | some fn => fn vs
+    | none => .otherError)⟩
+def evIter (v : Val) : Ev := ⟨.iter v, if (iterItems v).isSome then none else some .typeError⟩
+def evRange (a b : Val) : Ev :=
+  ⟨.range a b, match rangeArg a, rangeArg b with
+    | some _, some _ => none
+    | _, _ => some .typeError⟩
+def evFmt (ρ : Env) (v : Val) : Ev :=
+  ⟨.fmt v, match fmtVal ρ v with
+    | .val (.str _) => none
+    | .val _ => some .otherError
+    | e => some e⟩
 
 /-- continue with the value, stop at an exception -/
 def onVal (o : Out) (k : Val → List Ev) : List Ev :=
@@ -74,25 +134,28 @@ def callEvents (targs : List Ev) (args : Args) (mk : List Val → Ev) : List Ev 
 
 /-- after the receiver has a value: the attribute lookup of the method, the arguments, the call -/
 def methodEvents (ρ : Env) (recv : Val) (n : Text) (targs : List Ev) (args : Args) : List Ev :=
-  .getattr recv n :: (match recv with
-    | .none => []
-    | _ => if (ρ.meths recv n).isSome then callEvents targs args (.callMethod recv n) else [])
+  match recv with
+  | .none => [⟨.getmeth recv n, some .noneDeref⟩]
+  | _ =>
+    if (ρ.meths recv n).isSome then ⟨.getmeth recv n, none⟩ :: callEvents targs args (evCallMethod ρ recv n)
+    else [⟨.getmeth recv n, some .otherError⟩]
 
 def funEvents (ρ : Env) (n : Text) (targs : List Ev) (args : Args) : List Ev :=
-  .loadFn n :: (if calleeResolves ρ n then callEvents targs args (.call n) else [])
+  if calleeResolves ρ n then ⟨.loadFn n, none⟩ :: callEvents targs args (evCall ρ n)
+  else [⟨.loadFn n, some .otherError⟩]
 
 mutual
   /-- the operations Python performs to evaluate the source expression, in order -/
   def trace (ρ : Env) : Expr → List Ev
-    | .name x => [.load x (loadOut ρ x)]
+    | .name x => [evLoad ρ x]
     | .const _ => []
-    | .member e n => trace ρ e ++ onVal (eval ρ e) fun v => [.getattr v n]
+    | .member e n => trace ρ e ++ onVal (eval ρ e) fun v => [evGetattr v n]
     | .index c i =>
-      trace ρ c ++ onVal (eval ρ c) fun cv => trace ρ i ++ onVal (eval ρ i) fun iv => [.index cv iv]
+      trace ρ c ++ onVal (eval ρ c) fun cv => trace ρ i ++ onVal (eval ρ i) fun iv => [evIndex cv iv]
     | .cmp l op r =>
-      trace ρ l ++ onVal (eval ρ l) fun lv => trace ρ r ++ onVal (eval ρ r) fun rv => [.cmp op lv rv]
+      trace ρ l ++ onVal (eval ρ l) fun lv => trace ρ r ++ onVal (eval ρ r) fun rv => [evCmp ρ.fops op lv rv]
     | .isIn m c =>
-      trace ρ m ++ onVal (eval ρ m) fun mv => trace ρ c ++ onVal (eval ρ c) fun cv => [.isIn mv cv]
+      trace ρ m ++ onVal (eval ρ m) fun mv => trace ρ c ++ onVal (eval ρ c) fun cv => [evIsIn ρ.fops mv cv]
     | .impl a c => trace ρ a ++ onVal (eval ρ a) fun av => if av.truthy ρ.fops then trace ρ c else []
     | .methodCall inst n args =>
       trace ρ inst ++ onVal (eval ρ inst) fun recv => methodEvents ρ recv n (traceArgs ρ args) (evalArgs ρ args)
@@ -103,9 +166,9 @@ mutual
     | .and es => traceAnd ρ es
     | .or es => traceOr ρ es
     | .add l r =>
-      trace ρ l ++ onVal (eval ρ l) fun lv => trace ρ r ++ onVal (eval ρ r) fun rv => [.arith true lv rv]
+      trace ρ l ++ onVal (eval ρ l) fun lv => trace ρ r ++ onVal (eval ρ r) fun rv => [evArith ρ.fops true lv rv]
     | .sub l r =>
-      trace ρ l ++ onVal (eval ρ l) fun lv => trace ρ r ++ onVal (eval ρ r) fun rv => [.arith false lv rv]
+      trace ρ l ++ onVal (eval ρ l) fun lv => trace ρ r ++ onVal (eval ρ r) fun rv => [evArith ρ.fops false lv rv]
     | .joinedStr ps => traceParts ρ ps
     | .any g c =>
       traceGen ρ g ++
@@ -126,9 +189,9 @@ mutual
   /-- the iterable (or the two arguments of `range`), evaluated in the enclosing scope, then
   the start of the iteration -/
   def traceGen (ρ : Env) : Gen → List Ev
-    | .forEach _ it => trace ρ it ++ onVal (eval ρ it) fun iv => [.iter iv]
+    | .forEach _ it => trace ρ it ++ onVal (eval ρ it) fun iv => [evIter iv]
     | .forRange _ a b =>
-      trace ρ a ++ onVal (eval ρ a) fun av => trace ρ b ++ onVal (eval ρ b) fun bv => [.range av bv]
+      trace ρ a ++ onVal (eval ρ a) fun av => trace ρ b ++ onVal (eval ρ b) fun bv => [evRange av bv]
   def traceAnd (ρ : Env) : List Expr → List Ev
     | [] => []
     | [e] => trace ρ e
@@ -145,7 +208,7 @@ mutual
     | .lit _ :: ps => traceParts ρ ps
     | .fv e :: ps =>
       trace ρ e ++ onVal (eval ρ e) fun v =>
-        .fmt v :: (match fmtVal ρ v with
+        evFmt ρ v :: (match fmtVal ρ v with
           | .val (.str _) => traceParts ρ ps
           | _ => [])
 end
@@ -156,21 +219,21 @@ namespace AasVerif.PyEmit
 open AasVerif AasVerif.Expr
 
 /-- the event of a comparison operator (`is` / `is not` cannot raise) -/
-def cmpEvent (op : PyCmp) (l r : Val) : List Ev :=
+def cmpEvent (fo : FloatOps) (op : PyCmp) (l r : Val) : List Ev :=
   match op with
-  | .cmp c => [.cmp c l r]
-  | .in_ => [.isIn l r]
+  | .cmp c => [evCmp fo c l r]
+  | .in_ => [evIsIn fo l r]
   | .is_ => []
   | .isNot => []
 
 mutual
   /-- the operations Python performs to evaluate the emitted expression, in order -/
   def PyExpr.trace (ρ : Env) : PyExpr → List Ev
-    | .that => [.load selfName (loadOut ρ selfName)]
-    | .var x => [.load x (loadOut ρ x)]
-    | .constRef x => [.load x (loadOut ρ x)]
-    | .enumRef x => [.load x (loadOut ρ x)]
-    | .funRef x => [.load x (loadOut ρ x)]
+    | .that => [evLoad ρ selfName]
+    | .var x => [evLoad ρ x]
+    | .constRef x => [evLoad ρ x]
+    | .enumRef x => [evLoad ρ x]
+    | .funRef x => [evLoad ρ x]
     | .noneC => []
     | .tru => []
     | .fls => []
@@ -178,22 +241,22 @@ mutual
     | .float _ => []
     | .str _ => []
     | .neg e => PyExpr.trace ρ e
-    | .attr e _ n => PyExpr.trace ρ e ++ onVal (PyExpr.eval ρ e) fun v => [.getattr v n]
+    | .attr e _ n => PyExpr.trace ρ e ++ onVal (PyExpr.eval ρ e) fun v => [evGetattr v n]
     | .subscript c i =>
       PyExpr.trace ρ c ++ onVal (PyExpr.eval ρ c) fun cv =>
-        PyExpr.trace ρ i ++ onVal (PyExpr.eval ρ i) fun iv => [.index cv iv]
+        PyExpr.trace ρ i ++ onVal (PyExpr.eval ρ i) fun iv => [evIndex cv iv]
     | .callMethod inst n args =>
       PyExpr.trace ρ inst ++ onVal (PyExpr.eval ρ inst) fun recv =>
         methodEvents ρ recv n (traceArgs ρ args) (evalArgs ρ args)
     | .callFun n args => funEvents ρ n (traceArgs ρ args) (evalArgs ρ args)
     | .compare l op r =>
       PyExpr.trace ρ l ++ onVal (PyExpr.eval ρ l) fun lv =>
-        PyExpr.trace ρ r ++ onVal (PyExpr.eval ρ r) fun rv => cmpEvent op lv rv
+        PyExpr.trace ρ r ++ onVal (PyExpr.eval ρ r) fun rv => cmpEvent ρ.fops op lv rv
     | .not e => PyExpr.trace ρ e
     | .boolop isAnd vals => traceBool ρ isAnd vals
     | .binop isAdd l r =>
       PyExpr.trace ρ l ++ onVal (PyExpr.eval ρ l) fun lv =>
-        PyExpr.trace ρ r ++ onVal (PyExpr.eval ρ r) fun rv => [.arith isAdd lv rv]
+        PyExpr.trace ρ r ++ onVal (PyExpr.eval ρ r) fun rv => [evArith ρ.fops isAdd lv rv]
     | .fstring parts => traceParts ρ parts
     | .quant isAny elt x iter =>
       traceIter ρ iter ++
@@ -207,10 +270,10 @@ mutual
          | .err _ => [])
     | .paren e => PyExpr.trace ρ e
   def traceIter (ρ : Env) : PyIter → List Ev
-    | .each e => PyExpr.trace ρ e ++ onVal (PyExpr.eval ρ e) fun iv => [.iter iv]
+    | .each e => PyExpr.trace ρ e ++ onVal (PyExpr.eval ρ e) fun iv => [evIter iv]
     | .range a b =>
       PyExpr.trace ρ a ++ onVal (PyExpr.eval ρ a) fun av =>
-        PyExpr.trace ρ b ++ onVal (PyExpr.eval ρ b) fun bv => [.range av bv]
+        PyExpr.trace ρ b ++ onVal (PyExpr.eval ρ b) fun bv => [evRange av bv]
   def traceBool (ρ : Env) (isAnd : Bool) : List PyExpr → List Ev
     | [] => []
     | [e] => PyExpr.trace ρ e
@@ -225,7 +288,7 @@ mutual
     | .lit _ :: ps => traceParts ρ ps
     | .fv e :: ps =>
       PyExpr.trace ρ e ++ onVal (PyExpr.eval ρ e) fun v =>
-        .fmt v :: (match fmtVal ρ v with
+        evFmt ρ v :: (match fmtVal ρ v with
           | .val (.str _) => traceParts ρ ps
           | _ => [])
 end
